@@ -379,7 +379,7 @@ Record valid_facts (ev : event) : Prop := {
   vf_nodup : NoDup (all_ids ev);
   vf_singles : NoDup (filter (fun s => negb (s =? 0)) (map r_single (e_creates ev)));
   vf_parent : Forall (fun r => val_known (ids (e_arg ev)) (r_parent r)) (e_arg ev);
-  vf_argrefs : Forall (fun r => Forall (val_known (ids (e_arg ev))) (r_refs r)) (e_arg ev);
+  vf_argrefs : Forall (fun r => Forall (val_known (ids (e_arg ev))) (checked_arg_fields (r_refs r))) (e_arg ev);
   vf_cudvals : Forall (fun r => Forall (val_known (all_ids ev)) (row_vals r)) (e_creates ev ++ e_updates ev);
   vf_bound : Forall (fun r => r_id r <= c04_max_record_id) (e_arg ev ++ e_creates ev) }.
 
@@ -398,6 +398,17 @@ Proof.
   - apply forallb_Forall in H. eapply Forall_impl; [|exact H]. intros r Hr. cbv beta in Hr.
     apply forallb_Forall in Hr. eapply Forall_impl; [|exact Hr]. cbn. intros v Hv. apply known_or_not_raw_spec. exact Hv.
   - apply forallb_Forall in I. eapply Forall_impl; [|exact I]. cbn. intros r Hr. lia.
+Qed.
+
+(* every RecordID field of the argument rows (reference fields and plain ones) holds 0, a storage ID, or the raw ID
+   of an argument row: what validation guarantees for the reference fields only, while F46 is open *)
+Definition arg_fields_closed (ev : event) : Prop :=
+  Forall (fun r => Forall (val_known (ids (e_arg ev))) (r_refs r)) (e_arg ev).
+
+Lemma argrefs_all ev : valid ev = true -> c04_arg_plain_checked = true \/ arg_fields_closed ev -> arg_fields_closed ev.
+Proof.
+  intros V [F|C]; [|exact C]. pose proof (vf_argrefs _ (valid_spec ev V)) as H.
+  unfold checked_arg_fields in H. rewrite F in H. exact H.
 Qed.
 
 Lemma NoDup_filter_N (f : N -> bool) l : NoDup l -> NoDup (filter f l).
@@ -597,15 +608,15 @@ Proof.
   - rewrite mu_not_raw, sub_arg_not_raw by exact NR. split; [reflexivity|exact NR].
 Qed.
 
-Lemma arg_row r : In r (e_arg ev) -> rewrite_arg pa (assigned pa r) = map_row (mu pa pc) r.
+Lemma arg_row r : arg_fields_closed ev -> In r (e_arg ev) -> rewrite_arg pa (assigned pa r) = map_row (mu pa pc) r.
 Proof.
-  intros I. unfold rewrite_arg, assigned, map_row, set_id. cbn.
+  intros AC I. unfold rewrite_arg, assigned, map_row, set_id. cbn.
   assert (IID : In (r_id r) (ids (e_arg ev))) by (unfold ids; apply in_map; exact I).
   pose proof (vf_nonnull _ VF) as NN. rewrite Forall_forall in NN.
   assert (NZ : r_id r <> 0) by (apply NN; apply in_or_app; left; exact I).
   destruct (mu_declared_arg _ IID NZ) as [NRaw _].
   pose proof (vf_parent _ VF) as PAR. rewrite Forall_forall in PAR. destruct (arg_value _ (PAR r I)) as [EP NP].
-  pose proof (vf_argrefs _ VF) as REFS. rewrite Forall_forall in REFS. specialize (REFS r I).
+  pose proof AC as REFS. unfold arg_fields_closed in REFS. rewrite Forall_forall in REFS. specialize (REFS r I).
   f_equal.
   - rewrite <- (mu_arg_id _ IID). apply sub_arg_not_raw. exact NRaw.
   - rewrite EP. apply sub_arg_not_raw. exact NP.
@@ -712,8 +723,8 @@ Proof.
   - apply map_ext_in. intros v Hv. apply (cud_value r v IC). cbn. auto.
 Qed.
 
-Lemma stored_arg : e_arg ev' = map (map_row (mu pa pc)) (e_arg ev).
-Proof. rewrite (ps_arg _ _ _ _ _ _ _ P). apply map_ext_in. intros r I. apply arg_row. exact I. Qed.
+Lemma stored_arg : arg_fields_closed ev -> e_arg ev' = map (map_row (mu pa pc)) (e_arg ev).
+Proof. intros AC. rewrite (ps_arg _ _ _ _ _ _ _ P). apply map_ext_in. intros r I. apply arg_row; assumption. Qed.
 Lemma stored_creates : e_creates ev' = map (map_row (mu pa pc)) (e_creates ev).
 Proof. rewrite (ps_creates _ _ _ _ _ _ _ P). apply map_ext_in. intros r I. apply create_row. exact I. Qed.
 Lemma stored_updates : e_updates ev' = map (map_row (mu pa pc)) (e_updates ev).
@@ -759,13 +770,14 @@ Theorem substitution_proved : forall au ps g ev g' ev' rep,
   valid ev = true -> Forall single_ok (e_creates ev) -> c04_first_user_id <= g ->
   room 0 g (e_arg ev ++ e_creates ev) ->
   ps = true \/ cud_refs_arg_free ev ->
+  c04_arg_plain_checked = true \/ arg_fields_closed ev ->
   regenerate_gen au ps g ev = (g', ev', rep) ->
   consistent_substitution ev ev' rep.
 Proof.
-  intros au ps g ev g' ev' rep Hv Hs Hg Hr Hsh E.
+  intros au ps g ev g' ev' rep Hv Hs Hg Hr Hsh Hpl E.
   destruct (regenerate_passes au ps 0 g ev Hv Hg Hr g' ev' rep E) as (pa & pc & g1 & repc & P).
   pose proof (valid_spec ev Hv) as VF.
-  pose proof (stored_arg au ps 0 g ev Hv Hg g' ev' rep pa pc g1 repc P) as SA.
+  pose proof (stored_arg au ps 0 g ev Hv Hg g' ev' rep pa pc g1 repc P (argrefs_all ev Hv Hpl)) as SA.
   pose proof (stored_creates au ps 0 g ev Hv Hs Hg g' ev' rep pa pc g1 repc P Hsh) as SC.
   pose proof (stored_updates au ps 0 g ev Hv Hs Hg g' ev' rep pa pc g1 repc P Hsh) as SU.
   pose proof (vf_nonnull _ VF) as NN. rewrite Forall_forall in NN.
@@ -809,7 +821,7 @@ Proof.
         apply in_map_iff in IV; destruct IV as [v0 [EQ IV]]; subst v.
       * (* argument row *)
         pose proof (vf_parent _ VF) as PAR. rewrite Forall_forall in PAR.
-        pose proof (vf_argrefs _ VF) as REFS. rewrite Forall_forall in REFS. specialize (REFS r I). rewrite Forall_forall in REFS.
+        pose proof (argrefs_all ev Hv Hpl) as REFS. unfold arg_fields_closed in REFS. rewrite Forall_forall in REFS. specialize (REFS r I). rewrite Forall_forall in REFS.
         cbn in IV. destruct IV as [<-|[<-|IV]].
         -- apply (mu_declared_arg au ps 0 g ev Hv Hg g' ev' rep pa pc g1 repc P).
            ++ unfold ids. apply in_map. exact I.
